@@ -496,20 +496,23 @@ def c10_monitor(ctx, tr, ix):
                 continue
             held = {(h["id"], sd): h[sd]["qty"] for h in c["before"]["FUTURE"]["holdings"] for sd in ("long", "short")}
             opened, closing = collections.Counter(), collections.Counter()
+            # what any order (this call's or one resting from before) opened on the leg while the call ran
+            lo_, hi_ = c.get("ev_range", (0, 0))
+            for k_, e_ in tr.events[lo_:hi_]:
+                if k_ == "TRADE" and e_["trade"]["book"] in ix.fut and e_["trade"]["effect"] == "OPEN":
+                    opened[(e_["trade"]["book"], "long" if e_["trade"]["side"] == "BUY" else "short")] += e_["trade"]["qty"]
             for o in c["orders"]:
                 if o["book"] not in ix.fut:
                     continue
                 leg = (o["book"], o["direction"].lower())
-                if o["effect"] == "OPEN":
-                    opened[leg] += o["filled"]
-                elif o["effect"] in ("CLOSE", "CLOSE_TODAY"):
+                if o["effect"] in ("CLOSE", "CLOSE_TODAY"):
                     closing[leg] += o["qty"]
             for leg, q in closing.items():
                 if q > held.get(leg, 0) + opened[leg]:
                     sigq = {"kind": "accepted_closes_exceed_leg", "account": "FUTURE"}
                     if c["api"] == "plan_future_generic_close":
                         sigq["generic_close_and_close_today_resting"] = True      # the scenario of finding F12
-                    ctx.witness("C10.3", sigq, "%s%r at %s: closing orders for %s lots of %s %s passed validation, the leg held %s before the call and the call opened %s"
+                    ctx.witness("C10.3", sigq, "%s%r at %s: closing orders for %s lots of %s %s passed validation, the leg held %s before the call and %s lots were opened while it ran"
                                 % (c["api"], c["args"], c["when"], q, leg[0], leg[1], held.get(leg, 0), opened[leg]), rp)
     # rejected closes change nothing: position-validator vetoes vs snapshots around the call
     for c in tr.calls:
